@@ -298,10 +298,21 @@ def check_setup(ctx):
     ok = len(rets) == 1 and src(rets[0].value).replace(' ', '') == 'ArrayDelayQueue(np.zeros((%s,%s)),%s,0.0)' % (a[0], a[1], a[2])
     ctx.ob('R10.5-queue-setup', 'setup_queue', ok, ctx.loc('simulator', f), 'setup_queue builds an empty (reactions x slots) queue with step dt', '')
     sl = simloop.SimLoop(ctx, 'DelaySSASimulator')
-    pre = [util.stmt_key(s) for s in sl.pre]
-    ok = 'q.set_current_time(current_time)' in pre and 'current_time = sim.get_initial_time()' in pre and \
-        pre.index('current_time = sim.get_initial_time()') < pre.index('q.set_current_time(current_time)')
-    ctx.ob('R10.5-queue-setup', 'DelaySSASimulator/align', ok, sl.where, 'the queue is aligned with the initial time before the loop', '')
+    # q.set_current_time(<the interface's initial time>) at the top level of the set-up code (the value may go through a local)
+    sets = [s_ for s_ in sl.pre if isinstance(s_, ast.Expr) and isinstance(s_.value, ast.Call) and src(s_.value.func).replace(' ', '') == 'q.set_current_time'
+            and len(s_.value.args) == 1]
+    ok, det = False, '%d calls of q.set_current_time in the set-up code' % len(sets)
+    if len(sets) == 1:
+        a_ = util.strip_cast(sets[0].value.args[0])
+        if isinstance(a_, ast.Name):
+            v_ = sl.prelude_assign(a_.id, resolve=True) if a_.id not in sl.prelude_aliases() else sl.prelude_aliases()[a_.id]
+            raw_ = sl.prelude_assign(a_.id) if a_.id not in sl.prelude_aliases() else v_
+            ok = v_ is not None and src(util.strip_cast(v_)).replace(' ', '') == 'sim.get_initial_time()' and raw_.lineno <= sets[0].lineno
+            det = 'the queue clock is set to %s = %s' % (a_.id, src(v_) if v_ is not None else None)
+        else:
+            ok = src(a_).replace(' ', '') == 'sim.get_initial_time()'
+            det = 'the queue clock is set to %s' % src(a_)
+    ctx.ob('R10.5-queue-setup', 'DelaySSASimulator/align', ok, sl.where, 'the queue is aligned with the initial time before the loop', det)
 
 
 def check_nodelay(ctx):
